@@ -42,6 +42,8 @@ mod subscribers;
 #[cfg(feature = "telemetry")]
 pub mod telemetry;
 mod worterbuch;
+#[cfg(feature = "verif")]
+pub mod verif;
 
 pub use config::*;
 use tosub::SubsystemHandle;
@@ -330,6 +332,8 @@ async fn process_api_call(worterbuch: &mut Worterbuch, function: WbFunction) {
             tx.send(worterbuch.len()).ok();
         }
     }
+    #[cfg(feature = "verif")]
+    verif::after_request(worterbuch);
 }
 
 async fn run_in_regular_mode(
